@@ -188,7 +188,7 @@ def run_part_a(run, e1, cell, rng, tier):
                     if accepted:
                         run.violation("over-limit-accepted/" + el + ("+underscore" if under else ""),
                                       "request over a limit reached the application: cfg=%s line=%d fields=%d "
-                                      "longest_field=%s underscore_fields=%d cuts=%s" % (cs, L, n, F, under, cuts[:6]),
+                                      "longest_field=%s underscore_fields=%s cuts=%s" % (cs, L, n, F, under, cuts[:6]),
                                       {"part": "A", "cfg": cs, "stream": stream.hex(), "cuts": cuts, "want": want})
                     else:
                         run.count("A_reject_ok")
